@@ -29,6 +29,7 @@ RULE = ('reference-encoded bpch images with 1-4 time blocks, 1-3 diagnostic '
         'present block by block; plus the bundled sample file with its '
         'tables (independent fixed-column table parser). '
         'non-trivial = >= 2 data blocks; distinct = digest of the spec.')
+RULE += (' The grid header (halfpolar and center180 drawn independently, model name, resolution) both readers state is compared with the file, and the latitude/longitude cells both derive from it with each other.')
 ASSUMPTIONS = [
     'the reference codec follows the GEOS-Chem/GAMAP "CTM bin 02" '
     'description; shared misreadings of that description are out of reach',
